@@ -135,6 +135,7 @@ func TestC17(t *testing.T) {
 		// usable over TCP, cloned) reaches Dial through the request context
 		viaTransport := len(entries) == 1 && rapid.IntRange(0, 2).Draw(t, "via_transport") == 0
 		hostOverride := viaTransport && rapid.Bool().Draw(t, "host_header_override")
+		dialerResolverSet := viaTransport && rapid.Bool().Draw(t, "dialer_resolver_set")
 		if viaTransport {
 			cl = append(cl, "via_transport")
 		}
@@ -266,6 +267,9 @@ func TestC17(t *testing.T) {
 					}
 					return nil, errors.New("scripted success: no real connection in this mode")
 				}
+				if dialerResolverSet {
+					dt.Resolver = r // documented as ignored when the Dialer is used by a Transport
+				}
 				tr := ech.NewTransport()
 				tr.Resolver, tr.Dialer, tr.TLSConfig = r, dt, tc
 				req, e := http.NewRequestWithContext(ctx, "GET", "https://"+entries[0]+"/", nil)
@@ -377,6 +381,17 @@ func TestC17(t *testing.T) {
 			if first.Outcome == "reject_noconfigs" {
 				cl = append(cl, "rejection_without_configs")
 				rejection = true
+			}
+		}
+		// (g) when no attempt succeeded, every target of the requested names was tried, except
+		// those that RequireECH refuses for want of any ECH config list
+		if derr != nil && !isPanic(derr) {
+			for _, addr := range dnsfx.SortedKeys(expKeys) {
+				e := exp[addr]
+				refused := d.RequireECH && callerList == nil && e.ech == nil && d.PublicName == ""
+				if !refused && len(perAddr[addr]) == 0 {
+					ev.Violation(t, "C17", rp, "no attempt succeeded (%v) yet %s, a target of %q, was never dialed", derr, addr, e.host)
+				}
 			}
 		}
 		// a target that must be refused under RequireECH was never dialed: covered by (a).
